@@ -75,6 +75,27 @@ pub open spec fn var_of(g: &GeneratorState, operand: ExprType) -> Variable {
         _ => g.compiler_state.var(Seq::<char>::empty()),
     }
 }
+// an Absolute operand that denotes the variable's own cell with no offset: 8-bit access to a char, or a constant pointer's target
+pub open spec fn plain_abs(g: &GeneratorState, m: AsmMnemonic, operand: ExprType, high_byte: bool) -> bool {
+    match operand {
+        ExprType::Absolute(n, eb, off) => {
+            let v = g.compiler_state.var(n@);
+            eb && !high_byte && (v.var_type == VariableType::Char || (v.var_type == VariableType::CharPtr && v.var_const)) && off + port(g, v, m) == 0
+        }
+        _ => false,
+    }
+}
+// exactly when asm() accepts an Absolute operand (its only rejections: RMW on split-port memory; 8-bit access through a
+// non-constant pointer with a constant offset, which the 6502 cannot address)
+pub open spec fn abs_accepted(g: &GeneratorState, m: AsmMnemonic, operand: ExprType, high_byte: bool) -> bool {
+    match operand {
+        ExprType::Absolute(n, eb, _) => {
+            let v = g.compiler_state.var(n@);
+            !(m_rmw(m) && split_port(g, v)) && !(v.var_type == VariableType::CharPtr && eb && !v.var_const && !high_byte)
+        }
+        _ => true,
+    }
+}
 pub open spec fn is_store(m: AsmMnemonic) -> bool { m == STA || m == STX || m == STY }
 pub open spec fn split_port(g: &GeneratorState, v: Variable) -> bool {
     v.memory == VariableMemory::Superchip || (v.memory is MemoryOnChip && (g.bankswitching_scheme@ == "3E"@ || g.bankswitching_scheme@ == "3EP"@))
@@ -152,9 +173,50 @@ ASM_HEADER = """
             emitted_one(old(self).out.code@, final(self).out.code@) ==> (operand is Tmp ==> new_inst(old(self).out.code@, final(self).out.code@).dasm_operand@ == "cctmp"@), //@ C13:text-tmp
             emitted_one(old(self).out.code@, final(self).out.code@) ==> (operand is Label ==> new_inst(old(self).out.code@, final(self).out.code@).dasm_operand@ == operand->Label_0@), //@ C13:text-label
             emitted_one(old(self).out.code@, final(self).out.code@) ==> (operand is Nothing ==> new_inst(old(self).out.code@, final(self).out.code@).dasm_operand@.len() == 0), //@ C13:text-nothing
-            emitted_one(old(self).out.code@, final(self).out.code@) ==> (m_rmw(new_inst(old(self).out.code@, final(self).out.code@).mnemonic) && !(operand is Nothing) ==> !split_port(old(self), var_of(old(self), *operand))), //@ C17:rmw
+            emitted_one(old(self).out.code@, final(self).out.code@) ==> (m_rmw(new_inst(old(self).out.code@, final(self).out.code@).mnemonic) && (operand is Absolute || operand is AbsoluteX || operand is AbsoluteY) ==> !split_port(old(self), var_of(old(self), *operand))), //@ C17:rmw
+            emitted_one(old(self).out.code@, final(self).out.code@) ==> (plain_abs(old(self), mnemonic, *operand, high_byte) ==> new_inst(old(self).out.code@, final(self).out.code@).dasm_operand@ == operand->Absolute_0@), //@ C13,C18:text-abs-plain
             (operand is Nothing || operand is Immediate || operand is Tmp || operand is Label) ==> res is Ok, //@ C16:asm-total-simple
+            (operand is A && mnemonic == LDA) ==> final(self).out.code@ == old(self).out.code@, //@ C13:asm-lda-a-emits-nothing
+            operand is Absolute ==> ((res is Ok) == abs_accepted(old(self), mnemonic, *operand, high_byte)), //@ C13,C16:asm-abs-accepts
         decreases (if operand is A { 1nat } else { 0nat }),
+"""
+
+
+SASM_HEADER = """pub(crate) fn sasm(&mut self, mnemonic: AsmMnemonic) -> (res: Result<bool, Error>)
+        requires legal(mnemonic, Mode::Implied),
+        ensures frame_same(old(self), final(self)), res is Ok,
+            final(self).flags == old(self).flags && final(self).carry_flag_ok == old(self).carry_flag_ok,
+            old(self).current_function is None ==> final(self).out.code@ == old(self).out.code@,
+            old(self).current_function is Some ==> emitted_one(old(self).out.code@, final(self).out.code@) && new_inst(old(self).out.code@, final(self).out.code@).mnemonic == mnemonic
+               && new_inst(old(self).out.code@, final(self).out.code@).protected == old(self).protected && new_inst(old(self).out.code@, final(self).out.code@).nb_bytes == 1
+               && new_inst(old(self).out.code@, final(self).out.code@).dasm_operand@.len() == 0, //@ C04,C18:sasm
+"""
+SASM_PROTECTED_HEADER = """pub(crate) fn sasm_protected(&mut self, mnemonic: AsmMnemonic) -> (res: Result<bool, Error>)
+        requires legal(mnemonic, Mode::Implied),
+        ensures final(self).protected == false, final(self).current_function == old(self).current_function, res is Ok,
+            final(self).compiler_state == old(self).compiler_state && final(self).bankswitching_scheme == old(self).bankswitching_scheme && final(self).inline_label_counter == old(self).inline_label_counter,
+            final(self).flags == old(self).flags && final(self).carry_flag_ok == old(self).carry_flag_ok,
+            old(self).current_function is None ==> final(self).out.code@ == old(self).out.code@,
+            old(self).current_function is Some ==> emitted_one(old(self).out.code@, final(self).out.code@) && new_inst(old(self).out.code@, final(self).out.code@).mnemonic == mnemonic
+               && new_inst(old(self).out.code@, final(self).out.code@).protected && new_inst(old(self).out.code@, final(self).out.code@).nb_bytes == 1
+               && new_inst(old(self).out.code@, final(self).out.code@).dasm_operand@.len() == 0, //@ C18:sasm-protected
+"""
+INLINE_HEADER = """pub(crate) fn inline(&mut self, s: &str, size: Option<u32>) -> (res: Result<(), Error>)
+        ensures frame_same(old(self), final(self)), res is Ok,
+            final(self).flags == old(self).flags && final(self).carry_flag_ok == old(self).carry_flag_ok,
+            old(self).current_function is Some ==> final(self).out.code@.len() == old(self).out.code@.len() + 1
+                && final(self).out.code@.subrange(0, old(self).out.code@.len() as int) =~= old(self).out.code@
+                && (match final(self).out.code@[old(self).out.code@.len() as int] { AsmLine::Inline(t, n) => t@ == s@ && n == (match size { Some(k) => k, None => 3u32 }), _ => false }), //@ C04,C18:inline-line
+            old(self).current_function is None ==> final(self).out.code@ == old(self).out.code@,
+"""
+
+
+LABEL_HEADER = """pub(crate) fn label(&mut self, l: &str) -> (res: Result<(), Error>)
+        ensures frame_same(old(self), final(self)), res is Ok,
+            old(self).current_function is Some ==> final(self).out.code@.len() == old(self).out.code@.len() + 1
+                && final(self).out.code@.subrange(0, old(self).out.code@.len() as int) == old(self).out.code@
+                && (match final(self).out.code@[old(self).out.code@.len() as int] { AsmLine::Label(t) => t@ == l@, _ => false }) //@ C13:label-line
+                && final(self).flags == FlagsState::Unknown && final(self).carry_flag_ok == false, //@ C01:label-resets-flags
 """
 
 
@@ -165,6 +227,18 @@ def r5_current_function(cut, expect=(1, 1)):
     cut.sub(r"\bcode\.(append_\w+|set)\(", r"self.out.\1(", "R5-code->self.out")
     cut.sub(r"if let Some\((f\w?)\) = &self\.current_function \{", r"if let Some(_\1) = &self.current_function {", "R5-unused-binding")
     return n
+
+
+def env(repo):
+    """Types, shim, format shims and contracted stubs (external_body) of asm/sasm/sasm_protected/inline/label for caller units:
+    callers are verified against exactly the contracts U-asm proves."""
+    u = build(repo)
+    e = u._env
+    stubs = []
+    for hdr in (e["asm_header"], SASM_HEADER, SASM_PROTECTED_HEADER, INLINE_HEADER, e["label_header"]):
+        stubs.append("    #[verifier::external_body]\n    " + hdr.strip() + "\n    { unimplemented!() }\n")
+    e["stubs"] = "\n".join(stubs)
+    return e
 
 
 def build(repo):
@@ -225,18 +299,8 @@ def build(repo):
     text_asm = asm.text
     parts = [asm.text]
     for name, hdr, sig in (
-        ("sasm", """pub(crate) fn sasm(&mut self, mnemonic: AsmMnemonic) -> (res: Result<bool, Error>)
-        requires legal(mnemonic, Mode::Implied),
-        ensures frame_same(old(self), final(self)), res is Ok,
-            old(self).current_function is Some ==> emitted_one(old(self).out.code@, final(self).out.code@) && new_inst(old(self).out.code@, final(self).out.code@).mnemonic == mnemonic
-               && new_inst(old(self).out.code@, final(self).out.code@).protected == old(self).protected && new_inst(old(self).out.code@, final(self).out.code@).nb_bytes == 1, //@ C04,C18:sasm
-""", "fn sasm(&mut self, mnemonic: AsmMnemonic) -> Result<bool, Error>"),
-        ("sasm_protected", """pub(crate) fn sasm_protected(&mut self, mnemonic: AsmMnemonic) -> (res: Result<bool, Error>)
-        requires legal(mnemonic, Mode::Implied),
-        ensures final(self).protected == false, final(self).current_function == old(self).current_function, res is Ok,
-            old(self).current_function is Some ==> emitted_one(old(self).out.code@, final(self).out.code@) && new_inst(old(self).out.code@, final(self).out.code@).mnemonic == mnemonic
-               && new_inst(old(self).out.code@, final(self).out.code@).protected, //@ C18:sasm-protected
-""", "fn sasm_protected(&mut self, mnemonic: AsmMnemonic) -> Result<bool, Error>"),
+        ("sasm", SASM_HEADER, "fn sasm(&mut self, mnemonic: AsmMnemonic) -> Result<bool, Error>"),
+        ("sasm_protected", SASM_PROTECTED_HEADER, "fn sasm_protected(&mut self, mnemonic: AsmMnemonic) -> Result<bool, Error>"),
     ):
         c = ga.fn(name, within="GeneratorState")
         c.set_header(hdr, expect_sig=sig)
@@ -244,20 +308,8 @@ def build(repo):
         parts.append(c.text)
     # inline / label / comment / dummy / asm_restore_y
     for name, hdr, sig in (
-        ("inline", """pub(crate) fn inline(&mut self, s: &str, size: Option<u32>) -> (res: Result<(), Error>)
-        ensures frame_same(old(self), final(self)), res is Ok,
-            old(self).current_function is Some ==> final(self).out.code@.len() == old(self).out.code@.len() + 1
-                && final(self).out.code@.subrange(0, old(self).out.code@.len() as int) == old(self).out.code@
-                && (match final(self).out.code@[old(self).out.code@.len() as int] { AsmLine::Inline(t, n) => t@ == s@ && n == (match size { Some(k) => k, None => 3u32 }), _ => false }), //@ C04,C18:inline-line
-            old(self).current_function is None ==> final(self).out.code@ == old(self).out.code@,
-""", "fn inline(&mut self, s: &str, size: Option<u32>) -> Result<(), Error>"),
-        ("label", """pub(crate) fn label(&mut self, l: &str) -> (res: Result<(), Error>)
-        ensures frame_same(old(self), final(self)), res is Ok,
-            old(self).current_function is Some ==> final(self).out.code@.len() == old(self).out.code@.len() + 1
-                && final(self).out.code@.subrange(0, old(self).out.code@.len() as int) == old(self).out.code@
-                && (match final(self).out.code@[old(self).out.code@.len() as int] { AsmLine::Label(t) => t@ == l@, _ => false }) //@ C13:label-line
-                && final(self).flags == FlagsState::Unknown && final(self).carry_flag_ok == false, //@ C01:label-resets-flags
-""", "fn label(&mut self, l: &str) -> Result<(), Error>"),
+        ("inline", INLINE_HEADER, "fn inline(&mut self, s: &str, size: Option<u32>) -> Result<(), Error>"),
+        ("label", LABEL_HEADER, "fn label(&mut self, l: &str) -> Result<(), Error>"),
         ("asm_restore_y", """pub(crate) fn asm_restore_y(&mut self)
         ensures frame_same(old(self), final(self)),
             old(self).current_function is Some ==> emitted_one(old(self).out.code@, final(self).out.code@) && ({
@@ -278,8 +330,9 @@ def build(repo):
         "impl AssemblyCode {\n" + "\n".join(apps) + "\n}\n" + SHIM + fm.text() + \
         "impl<'a> GeneratorState<'a> {\n" + "\n".join(parts) + "\n}\n" + common.CANARY + "\n} // verus!\n"
     u.text[None] = text
-    u.text["atari2600"] = text
     u.cfgs = [None]
+    u._env = {"types": types + "\n".join(tys), "specs": common.DEC_SPECS + isa.ISA_SPECS, "shim": SHIM, "fmt": fm.text(), "asm_header": ASM_HEADER, "cuts": cuts,
+              "label_header": LABEL_HEADER, "append_impl": "impl AssemblyCode {\n" + "\n".join(apps) + "\n}\n", "lits": lits}
     u.rewrites = common.collect_rewrites(cuts)
     u.dropped = ["R5: `let code = self.functions_code.get_mut(f).unwrap()` dropped, `code.` -> `self.out.` (self.out stands for functions_code[current_function]); the dead local `s` (mnemonic text) dropped",
                  "R6: GeneratorState/CompilerState/Error are shims keeping only the fields the unit touches", "R4 format!", "R2 derive(Debug)/privacy"]
